@@ -43,19 +43,19 @@ type clobberSummary struct {
 }
 
 var externWriters = map[string]int{ // callee name (suffix) -> index of the written argument (receiver included)
-	"XORKeyStream":       1,
-	"CryptBlocks":        1,
-	"crypto/cipher.Block.Encrypt": 1,
-	"crypto/cipher.Block.Decrypt": 1,
-	"PutUint16":          1,
-	"PutUint32":          1,
-	"PutUint64":          1,
-	"io.ReadFull":        1,
-	"io.ReadAtLeast":     1,
-	"crypto/rand.Read":   0,
-	"math/rand.Read":     0,
-	"io.Reader.Read":     1,
-	"encoding/hex.Decode": 0,
+	"XORKeyStream":                   1,
+	"CryptBlocks":                    1,
+	"crypto/cipher.Block.Encrypt":    1,
+	"crypto/cipher.Block.Decrypt":    1,
+	"PutUint16":                      1,
+	"PutUint32":                      1,
+	"PutUint64":                      1,
+	"io.ReadFull":                    1,
+	"io.ReadAtLeast":                 1,
+	"crypto/rand.Read":               0,
+	"math/rand.Read":                 0,
+	"io.Reader.Read":                 1,
+	"encoding/hex.Decode":            0,
 	"crypto/subtle.ConstantTimeCopy": 1,
 	"crypto/subtle.XORBytes":         0,
 }
